@@ -39,7 +39,20 @@ extra7 = (" In this round write changes a maintainer would make for SPEED or COM
           "for other NumPy / pandas versions (copy-on-write, np.asarray vs np.array(copy=...), .values vs .to_numpy(), inplace=True, "
           "Series vs DataFrame return types, integer vs label indexing) that are not quite equivalent. At least TWO of the three "
           "mutants must be of kinds (1) or (2), each must still satisfy (a) and (b), and none may be a plain comparison-operator slip.")
-extra = extra7 if rnd.startswith("r7") else extra6 if rnd.startswith("r6") else extra4 if rnd.startswith("r4") else extra3 if rnd.startswith("r3") else "" if not rnd else (" In this round prefer the LESS obvious sites: helper and utility code, validation, base classes, "
+extra8 = (" In this round write ALGORITHM-LEVEL shortcuts and CONTRACT DRIFT between cooperating sites: (1) a search, dynamic programme or "
+          "greedy loop is made cheaper by a rule that is right for almost every input - a pruning / candidate-reduction test that is sound "
+          "for typical scores but not for all legal ones, restricting candidates to a sub-grid or to a window that nearly always contains "
+          "the optimum, a closed-form loop bound that is off only for particular sizes (n just above or below a multiple, n == minimum "
+          "size, p == 1), merging or de-duplicating candidates that are equal 'in practice', special handling of the first or the last "
+          "iteration, stopping as soon as an improvement is smaller than an epsilon; (2) a helper's contract changes slightly (inclusive "
+          "vs exclusive end, sorted vs unsorted output, copy vs view, scalar vs length-1 array, row vs column orientation, 0- vs 1-based "
+          "position, absolute vs relative position, array vs list) and one caller is adapted while another caller - or a user-supplied "
+          "component, subclass or callable - still relies on the old contract; (3) the same quantity is computed at two sites (fit and "
+          "predict, a detector and the scorer inside it, default and tuned path, dense and sparse output, a value and its validation) and "
+          "only one of them is changed, so that they disagree for particular configurations only. At least TWO of the three mutants must "
+          "be of kinds (1) or (2), each must still satisfy (a) and (b), and none may be a plain comparison-operator slip at the most "
+          "central line.")
+extra = extra8 if rnd.startswith("r8") else extra7 if rnd.startswith("r7") else extra6 if rnd.startswith("r6") else extra4 if rnd.startswith("r4") else extra3 if rnd.startswith("r3") else "" if not rnd else (" In this round prefer the LESS obvious sites: helper and utility code, validation, base classes, "
                             "penalty / threshold construction, conversions, caching and state handling, parameter plumbing between "
                             "classes - rather than the most central line of the main algorithm loop - and make at least TWO of the "
                             "three mutants need a rare input or boundary configuration to manifest.")
